@@ -1073,9 +1073,11 @@ class CodeGenerator(NodeVisitor):
             # time too, but i welcome it not to confuse users by throwing the
             # same error at different times just "because we can".
             if not self.has_known_extends:
-                self.writeline("if parent_template is not None:")
+                self.writeline("if parent_template is not None:", node)
                 self.indent()
-            self.writeline('raise TemplateRuntimeError("extended multiple times")')
+            self.writeline(
+                'raise TemplateRuntimeError("extended multiple times")', node
+            )
 
             # if we have a known extends already we don't need that code here
             # as we know that the template execution will end here.
@@ -1459,7 +1461,7 @@ class CodeGenerator(NodeVisitor):
         with_frame.symbols.analyze_node(node)
         self.enter_frame(with_frame)
         for target, expr in zip(node.targets, node.values, strict=False):
-            self.newline()
+            self.newline(node)
             self.visit(target, with_frame)
             self.write(" = ")
             self.visit(expr, frame)
@@ -1701,7 +1703,7 @@ class CodeGenerator(NodeVisitor):
 
             seen_refs.add(nsref.name)
             ref = frame.symbols.ref(nsref.name)
-            self.writeline(f"if not isinstance({ref}, Namespace):")
+            self.writeline(f"if not isinstance({ref}, Namespace):", node)
             self.indent()
             self.writeline(
                 "raise TemplateRuntimeError"
@@ -1733,7 +1735,7 @@ class CodeGenerator(NodeVisitor):
 
             seen_refs.add(nsref.name)
             ref = frame.symbols.ref(nsref.name)
-            self.writeline(f"if not isinstance({ref}, Namespace):")
+            self.writeline(f"if not isinstance({ref}, Namespace):", node)
             self.indent()
             self.writeline(
                 "raise TemplateRuntimeError"
@@ -2102,7 +2104,7 @@ class CodeGenerator(NodeVisitor):
 
     def visit_OverlayScope(self, node: nodes.OverlayScope, frame: Frame) -> None:
         ctx = self.temporary_identifier()
-        self.writeline(f"{ctx} = {self.derive_context(frame)}")
+        self.writeline(f"{ctx} = {self.derive_context(frame)}", node)
         self.writeline(f"{ctx}.vars = ")
         self.visit(node.context, frame)
         self.push_context_reference(ctx)
@@ -2118,7 +2120,7 @@ class CodeGenerator(NodeVisitor):
         self, node: nodes.EvalContextModifier, frame: Frame
     ) -> None:
         for keyword in node.options:
-            self.writeline(f"context.eval_ctx.{keyword.key} = ")
+            self.writeline(f"context.eval_ctx.{keyword.key} = ", node)
             self.visit(keyword.value, frame)
             try:
                 val = keyword.value.as_const(frame.eval_ctx)
